@@ -118,6 +118,12 @@ class Node:
             if c is not None:
                 yield from c.walk()
 
+    def stmts(self):
+        """the statements of a branch / body whether or not it is braced (the canonical tree drops single-statement braces)"""
+        if self.k == 'CompoundStmt':
+            return [c for c in self.c if c is not None]
+        return [self]
+
     def ancestors(self):
         p = self.parent
         while p is not None:
@@ -338,6 +344,9 @@ class Function:
         self.nodes = {}
         self.body = Node(j['body'], self) if j.get('body') else None
         self._cfg = None
+        if self.body is not None:
+            from . import normal
+            normal.normalise(self)
 
     @property
     def key(self):
